@@ -7,6 +7,8 @@ key order, duplicate keys and arbitrary code points survive the transport.
  response {"ok":true,"value":T} | {"ok":false,"err":"..."}
  request  {"op":"dumps","value":T,"ensure_ascii":bool,"indent":null|int,"seps":null|[a,b]}
  response {"ok":true,"text":[code points]}
+ request  {"op":"fmtnum","b":"16 hex digits","spec":".6g",["scale100":true]}
+ response {"ok":true,"text":[code points]}
 
  T = {"t":"num","b":"16 hex digits"} | {"t":"str","cp":[...]} | {"t":"bool","v":b} | {"t":"null"}
    | {"t":"list","items":[T...]} | {"t":"obj","pairs":[[[key code points],T]...]}
@@ -79,6 +81,14 @@ def main():
                 text = json.dumps(v, ensure_ascii=req.get("ensure_ascii", True), indent=req.get("indent"),
                                   separators=seps, allow_nan=False)
                 resp = {"ok": True, "text": [ord(c) for c in text]}
+            elif req["op"] == "fmtnum":
+                # rendering of one double by CPython's float formatting (correctly rounded,
+                # independent of Go's strconv): spec is a format spec such as ".6g" ".3f" ".2E";
+                # scale100 multiplies by 100 first (the % directive), in double arithmetic
+                f = struct.unpack(">d", bytes.fromhex(req["b"]))[0]
+                if req.get("scale100"):
+                    f = f * 100
+                resp = {"ok": True, "text": [ord(c) for c in format(f, req["spec"])]}
             else:
                 resp = {"ok": False, "err": "unknown op"}
         except Exception as e:  # malformed document, non-finite number, ...
